@@ -262,14 +262,14 @@ def run(tier, seed):
     prefix = [mk("Hadamard", 0, [1]), mk("S", 0, [1]), mk("CNOT", 0, [1, 2]), mk("Hadamard", 0, [3]), mk("CZ", 0, [3, 2])]
     cases = []
 
-    def new_case(fam, n, ops, labels, devwires, sv=1, meas=None, prep=None):
+    def new_case(fam, n, ops, labels, devwires, sv=1, meas=None, prep=None, fmode=True):
         plops = [decode_gate(g, M, labels) for g in ops]
         if prep is not None:       # BasisState preparation: in the models, X on the wires whose bit is 1
             plops = [qp.BasisState(np.array(prep), wires=labels)] + plops
             ops = [mk("PauliX", 0, [i + 1]) for i, b in enumerate(prep) if b] + ops
             counts["basis_state_preparations"] += 1
         c = {"fam": fam, "n": n, "ops": ops, "labels": labels, "devwires": devwires, "sv": sv, "meas": meas,
-             "plops": plops, "rows": None, "alt": None, "out": {}, "m": 0}
+             "plops": plops, "rows": None, "alt": None, "out": {}, "m": 0, "fmode": fmode}
         cases.append(c)
         counts["by_family"][fam] = counts["by_family"].get(fam, 0) + 1
         return c
@@ -309,7 +309,7 @@ def run(tier, seed):
         if not fixed:
             c["meas"] = rand_meas(rng, n, c["sv"], group_words_of(c["rows"], n, rng))
         for mode, d in (("T", dev.t), ("F", dev.f)):
-            if mode == "F" and (not c["sv"] or (c["fam"] == "pairs" and quick and len(cases) % 4)):
+            if mode == "F" and not (c["sv"] and c["fmode"]):
                 continue
             meas = list(c["meas"]) + ([("state",)] if mode == "F" else [])
             mps = build_mps(meas, labels)
@@ -381,7 +381,7 @@ def run(tier, seed):
         variants = [i % 2] if quick else [0, 1]
         for v in variants:
             c = new_case("pairs", 2, (pre2 if v else []) + [dict(g) for g in sq], [0, 1], True, meas=ALL2 if (quick and i % 4 == 0) or not quick
-                         else [ALL2[(i + k) % 15] for k in (0, 4, 9)] + [ALL2[15 + i % 3]])
+                         else [ALL2[(i + k) % 15] for k in (0, 4, 9)] + [ALL2[15 + i % 3]], fmode=(not quick) or i % 3 == 0)
             if not exec_case(c, shared):
                 V.add(f"exception:{type(c['exc']).__name__}", f"{type(c['exc']).__name__}: {c['exc']} on {describe(c)}", {"ops": c["ops"]})
                 cases.pop()
